@@ -35,9 +35,23 @@ pub fn pool(k: usize, seed: u64) -> Vec<Vec<Vec<u8>>> {
     pal.extend(rc_str(x));
     pal.push(b'C');
     let unique = repeat_free(k + 3, k, 0, seed + 77);
+    // private rows holding every ambiguity code of two or three bases (M, R, W, S, Y, K, V, H, D, B): for each base set
+    // a window of its own (from a sequence no other sample shares) repeated with each middle base of the set
+    let private = repeat_free(11 * k + 8, k, 0, seed + 78);
+    let mut coded: Vec<Vec<u8>> = Vec::new();
+    for (j, set) in [&b"AC"[..], b"AG", b"AT", b"CG", b"CT", b"GT", b"ACG", b"ACT", b"AGT", b"CGT"].iter().enumerate() {
+        for (i, m) in set.iter().enumerate() {
+            let mut w = private[j * (k + 1)..j * (k + 1) + k].to_vec();
+            w[h] = *m;
+            w.push(b"ACGT"[(i + j) % 4]);
+            coded.push(w);
+        }
+    }
+    let mut second = vec![snp(&g, k + h)];
+    second.extend(coded);
     vec![
         vec![g.clone()],
-        vec![snp(&g, k + h)],
+        second,
         vec![g[..2 * k].to_vec(), unique.clone()],
         vec![rc_str(&other(&g, k + h)), rep.clone()],
         vec![{
